@@ -54,6 +54,7 @@ def gen_ops(kind, K, ln, with_prep, small):
         idx = list(range(-ln - 1, ln + 2))
         for x in U:
             call("with", "with:append", x)
+            call("with", "with:insert_no_index", x, _insert=True)  # no position given: appended, insert or not
             for i in idx:
                 call("with", "with:index", x, _index=i)
                 call("with", "with:insert", x, _index=i, _insert=True)
